@@ -226,9 +226,9 @@ class Circuit:
             # Otherwise default to circuit
             else:
                 name = "Circuit"
-        # When grouping use unpacked circuit
-        if group:
-            circuit = circuit_copy
+        # When grouping use unpacked circuit, otherwise use a copy so that the
+        # provided circuit is never modified
+        circuit = circuit_copy if group else circuit.copy()
         spec = circuit.__circuit_spec
         # Check circuit size is valid
         n_heralds = len(circuit.heralds["input"])
@@ -274,7 +274,7 @@ class Circuit:
                 current_mode += 1
         # Skip for cases where swaps do not alter mode structure
         if list(swaps.keys()) != list(swaps.values()):
-            spec.append(ModeSwaps(swaps))
+            spec = [*spec, ModeSwaps(swaps)]
         # Update heralds to enforce input and output are on the same mode
         new_heralds = {
             "input": circuit.heralds["input"],
